@@ -50,7 +50,7 @@ def main(tier):
                "functions (combinations without replacement, permutation prefixes, permutations with bounded repetitions and their "
                "prefixes, the counting functions, shared PermutationMemo) are checked exhaustively for all parameter tuples up to a "
                "stated bound against itertools enumeration (bounded, never counted as proved).")
-    names = ["extract_components", "compute_jth_combination", "compute_jth_inversion_sequence", "n_choose_m_given_m_factorial", "construct_permutation"]
+    names = ["extract_components", "compute_jth_combination", "compute_jth_inversion_sequence", "n_choose_m_given_m_factorial", "construct_permutation", "compute_jth_permutation_prefix"]
     run_wp(ck, names, budget_ms(tier), prefix="C13.")
     ck.under_contract(*[MOD + n for n in ("compute_jth_combination_without_replacement", "n_choose_m", "n_choose_m_given_m_factorial",
                                           "compute_jth_permutation_prefix", "construct_permutation", "construct_permutation_with_copies",
